@@ -95,6 +95,10 @@ pub enum PoAct {
     ProgressAll,
     /// fault injection (probe): a message whose n-th getter call panics, fed under catch_unwind
     AbortProbe(u8, u8),
+    /// selects the registered parameter number (0, k) - CC 101 = 0, CC 100 = k - in one step: the
+    /// standardised RPNs (k = 2..6), which a byte domain of {0, 1, 127} never forms but code may treat
+    /// specially
+    SelectRpn(u8),
     Reset,
     ResetProbe,
 }
@@ -148,6 +152,8 @@ pub struct PollSys {
     pub deep_probes: bool,
     pub followup_values: Vec<u8>,
     pub deep_evals: std::sync::atomic::AtomicU64,
+    /// LSBs k of the standardised RPNs (0, k) offered as `SelectRpn` within two steps of the initial state
+    pub special_rpns: Vec<u8>,
 }
 
 /// messages fed through the panicking third-party type (status without channel, data bytes)
@@ -215,6 +221,7 @@ impl PollSys {
             deep_probes: false,
             followup_values: values.to_vec(),
             deep_evals: std::sync::atomic::AtomicU64::new(0),
+            special_rpns: Vec::new(),
         }
     }
 
@@ -717,6 +724,11 @@ impl System for PollSys {
             }
         }
         out.push(PoAct::TouchAll);
+        if depth <= 2 {
+            for &k in &self.special_rpns {
+                out.push(PoAct::SelectRpn(k));
+            }
+        }
         if self.report.c14 {
             for i in 0..ABORT_MSGS.len() {
                 for n in 0..10u8 {
@@ -771,6 +783,7 @@ impl System for PollSys {
             PoAct::Pump(_) => 11,
             PoAct::ProgressAll => 12,
             PoAct::AbortProbe(..) => 13,
+            PoAct::SelectRpn(..) => 0,
         }
     }
     fn render(&self, a: &PoAct) -> String {
@@ -791,6 +804,7 @@ impl System for PollSys {
             PoAct::ResetStorm(i) => format!("resetstorm:{}:{}", self.storms[*i as usize].0, self.storms[*i as usize].1),
             PoAct::TouchAll => "touchall".to_string(),
             PoAct::ProgressAll => "progressall".to_string(),
+            PoAct::SelectRpn(k) => format!("selectrpn:{}:{}", self.ch, k),
             PoAct::AbortProbe(i, n) => { let (st, d1, d2) = ABORT_MSGS[*i as usize]; format!("abortprobe:{}:{}:{}:{}", st | self.ch, d1, d2, n) }
             PoAct::Pump(i) => {
                 let n = self.pump_cycles.len();
@@ -822,6 +836,7 @@ impl System for PollSys {
                     format!("for _ in 0..{} {{ scanner.reset(); }}", n)
                 }
             }
+            PoAct::SelectRpn(k) => format!("scanner.feed(&helgoboss_midi::test_util::control_change({c}, 101, 0)); println!(\"{{:?}}\", scanner.feed(&helgoboss_midi::test_util::control_change({c}, 100, {k})));", c = self.ch, k = k),
             PoAct::AbortProbe(..) => format!("// {} (a ShortMessage implementation whose n-th getter call panics, fed inside catch_unwind)", self.render(a)),
             PoAct::ProgressAll => format!("for c in 0..16 {{ if c != {} {{ scanner.feed(&helgoboss_midi::test_util::control_change(c, 99, 1)); }} }}", self.ch),
             PoAct::TouchAll => "for c in 0..16 { scanner.feed(&helgoboss_midi::test_util::note_on(c, 1, 1)); scanner.feed(&helgoboss_midi::test_util::control_change(c, 7, 1)); }".to_string(),
@@ -839,6 +854,17 @@ impl PollSys {
     fn step_inner(&self, s: &PoState, a: &PoAct) -> Step<PoState> {
         match a {
             PoAct::Cc(c, v) => self.do_feed(s, 0xB0 | self.ch, *c, *v, true),
+            PoAct::SelectRpn(k) => {
+                let mut r1 = self.feed_core(s, 0xB0 | self.ch, 101, 0);
+                match r1.next.take() {
+                    Some(mid) => {
+                        let mut r2 = self.feed_core(&mid, 0xB0 | self.ch, 100, *k);
+                        r1.violations.append(&mut r2.violations);
+                        Step { strict: false, next: r2.next, obs: r2.obs, violations: r1.violations }
+                    }
+                    None => r1,
+                }
+            }
             PoAct::CcProbe(c, v) => self.do_feed(s, 0xB0 | self.ch, *c, *v, false),
             PoAct::Other(i) => {
                 let (st, a, b) = self.others[*i as usize];
@@ -1147,6 +1173,20 @@ fn run_timeout_classes(chk: &xs::Check, pid: &'static str, report: PReport) {
     }
 }
 
+/// The standardised registered parameter numbers (0, 2) ... (0, 6) - coarse tuning, tuning program /
+/// bank select, modulation depth range, MPE configuration - selected in one step near the initial
+/// state and then explored like any other number (small byte domain, timeouts 0 and 2 ms).
+fn run_special_rpns(chk: &xs::Check, pid: &'static str, report: PReport) {
+    use xs::{engine, Limits};
+    for t in [0u64, 2] {
+        let mut sys = PollSys::new(pid, 0, t, 1, &[1], false, report);
+        sys.special_rpns = vec![2, 3, 4, 5, 6];
+        sys.pauses = vec![(1 << 20) + 100];
+        let out = xs::explore(&sys, &Limits::default());
+        engine::record(chk, &sys, &out, None);
+    }
+}
+
 /// Timeouts so long that they never expire, each chosen so that one plausible lossy conversion
 /// aliases it to ZERO: 2^32 ms (as u32 milliseconds), 2^55 s (as u64 nanoseconds), 2^58 s (as u64
 /// microseconds), 2^61 s (as u64 milliseconds), plus Duration::MAX.
@@ -1175,6 +1215,7 @@ pub fn run_c13(chk: &xs::Check, tier: xs::Tier) {
     run_observer(chk, tier, "C13", PReport { c13: true, ..Default::default() });
     run_exotic(chk, "C13", PReport { c13: true, ..Default::default() });
     run_timeout_classes(chk, "C13", PReport { c13: true, ..Default::default() });
+    run_special_rpns(chk, "C13", PReport { c13: true, ..Default::default() });
     chk.sample(serde_json::json!({"history": ["cc 99 =1", "cc 98 =0", "cc 6 =127", "tick", "poll (age 1 < timeout 2) -> None, state unchanged", "tick", "poll (age 2) -> NRPN-7bit(128, 127)", "poll -> None"]}));
 }
 
@@ -1183,5 +1224,6 @@ pub fn run_c14(chk: &xs::Check, tier: xs::Tier) {
     run_observer(chk, tier, "C14", PReport { c14: true, c13: false, ..Default::default() });
     run_exotic(chk, "C14", PReport { c14: true, c13: false, ..Default::default() });
     run_timeout_classes(chk, "C14", PReport { c14: true, c13: false, ..Default::default() });
+    run_special_rpns(chk, "C14", PReport { c14: true, c13: false, ..Default::default() });
     chk.sample(serde_json::json!({"history": ["cc 101 =0", "cc 100 =1", "cc 6 =5", "cc 99 =7 -> RPN-7bit(number 1, value 5) (flush with the OLD number and kind)", "cc 6 =9", "cc 97 =1 -> [NRPN-7bit(897, 9), NRPN-decrement(897, 1)]"]}));
 }
